@@ -22,7 +22,7 @@ vector<double> StatTools::computeFdr(const vector<double>& pvalues)
   vector<double> fdr(pvalues.size());
   for (size_t i = 0; i < sortedPValues.size(); ++i)
   {
-    fdr[sortedPValues[i].index_] = sortedPValues[i].pvalue_ * static_cast<double>(n) / ( static_cast<double>(sortedPValues[i].index_ + 1));
+    fdr[sortedPValues[i].index_] = sortedPValues[i].pvalue_ * static_cast<double>(n) / static_cast<double>(n - i);
   }
   return fdr;
 }
